@@ -41,8 +41,10 @@ class Tables:
         self.funcs = []       # (file, qualname, node)
 
     def load(self):
+        self.modmut = {}
         for rel, src in iter_sources():
             tree = ast.parse(src)
+            self.modmut[rel] = module_mutables(tree)
             for n in tree.body:
                 if isinstance(n, ast.ClassDef):
                     self.classes[n.name] = (n, rel)
@@ -259,6 +261,70 @@ def entropy_of(fn):
     if ordered:
         out.add('hash_order')
     return sorted(out)
+
+
+MUTABLE_CTORS = {'dict', 'list', 'set', 'defaultdict', 'OrderedDict', 'deque', 'Counter'}
+STATE_METHODS = {'append', 'extend', 'insert', 'remove', 'pop', 'clear', 'update', 'setdefault', 'popitem', 'add', 'discard',
+                 'appendleft', 'sort', 'reverse'}
+
+
+def module_mutables(tree):
+    """module-level names bound to a mutable container (a place where state can survive from one call to the next)"""
+    out = set()
+    for n in tree.body:
+        tg, val = None, None
+        if isinstance(n, ast.Assign) and len(n.targets) == 1 and isinstance(n.targets[0], ast.Name):
+            tg, val = n.targets[0].id, n.value
+        elif isinstance(n, ast.AnnAssign) and isinstance(n.target, ast.Name) and n.value is not None:
+            tg, val = n.target.id, n.value
+        if tg is None:
+            continue
+        if isinstance(val, (ast.Dict, ast.List, ast.Set, ast.DictComp, ast.ListComp, ast.SetComp)):
+            out.add(tg)
+        elif isinstance(val, ast.Call):
+            f = val.func
+            nm = f.attr if isinstance(f, ast.Attribute) else (f.id if isinstance(f, ast.Name) else '')
+            if nm in MUTABLE_CTORS:
+                out.add(tg)
+    return out
+
+
+def writes_process_state(fn, mutables):
+    """does the function write into module-level state (`global X` + assignment, X[k] = v, X op= v, X.append(..)) --
+    the only way a result can come to depend on earlier calls in the same process"""
+    local = {a.arg for a in fn.args.args} | {a.arg for a in fn.args.kwonlyargs}
+    declared_global = set()
+    for n in ast.walk(fn):
+        if isinstance(n, ast.Global):
+            declared_global |= set(n.names)
+    for n in ast.walk(fn):
+        if isinstance(n, ast.Assign):
+            for tg in n.targets:
+                if isinstance(tg, ast.Name) and tg.id not in declared_global:
+                    local.add(tg.id)
+    for n in ast.walk(fn):
+        if isinstance(n, (ast.Assign, ast.AugAssign)):
+            tgs = n.targets if isinstance(n, ast.Assign) else [n.target]
+            for tg in tgs:
+                if isinstance(tg, ast.Name) and tg.id in declared_global:
+                    return True
+                if isinstance(tg, ast.Subscript):
+                    b = tg
+                    while isinstance(b, (ast.Subscript, ast.Attribute)):
+                        b = b.value
+                    if isinstance(b, ast.Name) and b.id in mutables and b.id not in local:
+                        return True
+                if isinstance(n, ast.AugAssign) and isinstance(tg, ast.Name) and tg.id in mutables and tg.id not in local:
+                    return True
+        if isinstance(n, ast.Call) and isinstance(n.func, ast.Attribute) and n.func.attr in STATE_METHODS \
+                and isinstance(n.func.value, ast.Name) and n.func.value.id in mutables and n.func.value.id not in local:
+            return True
+    for d in fn.decorator_list:
+        dn = d.func if isinstance(d, ast.Call) else d
+        nm = dn.attr if isinstance(dn, ast.Attribute) else (dn.id if isinstance(dn, ast.Name) else '')
+        if nm in ('lru_cache', 'cache', 'cached_property'):
+            return True
+    return False
 
 
 def entropy_star(t, fn, _seen=None):
@@ -530,6 +596,8 @@ def main(out_dir):
     mut = []
     for rel, qn, fn in t.funcs:
         e = entropy_of(fn)
+        if writes_process_state(fn, t.modmut.get(rel, set())):
+            e = sorted(set(e) | {'process_state'})
         if e:
             ent.append({'file': rel, 'function': qn, 'sources': e})
         mflag = mutation_of(fn)
